@@ -460,6 +460,10 @@ def c08(facts, tier):
                  "enumeration question and belongs to a different technique family.")
     n = r_depend.run(facts, rep)
     rep.floor("R-DEPEND(A)", "public primitives analysed", n, 105)
+    n = r_depend.run_inplace_order(facts, rep)
+    rep.floor("R-DEPEND(order)", "in-place loop loads", n, 8)
+    n = r_contra.run_narrow_shift(facts, rep, None if tier == "thorough" else r_depend.SCOPE_MODULES)
+    rep.floor("R-CONTRA(shift)", "functions with left shifts", n, 10)
     return rep
 
 
@@ -687,6 +691,7 @@ def c16(facts, tier):
                  "independence of the byte stream from read chunking, non-repetition, difference between seeds, the "
                  "shape of the empirical distributions, the numeric bound 21.")
     r_rngprov.run_c16(facts, rep)
+    r_rngprov.run_noise(facts, rep)
     return rep
 
 
